@@ -56,6 +56,75 @@ META = {
 }
 
 
+class P2(Envs.PositionComponent):
+    """A user-defined component type that derives from the position component the spatial worlds manage themselves."""
+
+
+def scale_case(case):
+    """E2 leg: a population of n agents (components X on all, Y on odd ones, the user type P2 on every third) joins a
+    world; chosen victims leave and re-join; optionally the model is marked complete at a chosen point.  After every
+    operation each listing must be the components of the residents in joining order."""
+    from mc.engine.seams import reset_library
+    reset_library()
+    kind, n = case['kind'], case['n']
+    m = Core.Model(seed=1)
+    mk, pos = KINDS[kind]
+    if mk is not None:
+        m.environment = mk(m)
+    env = m.environment
+    types = {'X': X, 'Y': Y, 'P2': P2}
+    agents, comps = [], {}
+    for i in range(n):
+        a = Core.Agent(f'g{i}', m)
+        for T in ('X',) + (('Y',) if i % 2 else ()) + (('P2',) if i % 3 == 0 else ()):
+            c = types[T](a, m)
+            a.add_component(c)
+            comps[id(c)] = (i, T)
+        agents.append(a)
+    res = []
+
+    def check(what):
+        for T, cls in types.items():
+            got = m.systems[cls]
+            exp = [(i, T) for i in res if (T == 'X') or (T == 'Y' and i % 2) or (T == 'P2' and i % 3 == 0)]
+            got_n = None if got is None else [comps.get(id(c), ('?', type(c).__name__)) for c in got]
+            if got_n != (exp or None):
+                raise Violation(f'{what}: listing of {T} differs from the residents\' components in joining order '
+                                f'({kind}, {n} agents)', expected=exp[:12], observed=(got_n or [])[:12])
+        if [a.id for a in env] != [f'g{i}' for i in res]:
+            raise Violation(f'{what}: residents differ')
+
+    steps = 0
+    for i in range(n):
+        if case.get('complete_at') == ('join', i):
+            m.complete()
+        env.add_agent(agents[i], *pos)
+        res.append(i)
+        steps += 1
+    check('after all joined')
+    for v in case['victims']:
+        if case.get('complete_at') == ('leave', v):
+            m.complete()
+        env.remove_agent(f'g{v}')
+        res.remove(v)
+        check(f'after g{v} left')
+        env.add_agent(agents[v], *pos)
+        res.append(v)
+        check(f'after g{v} re-joined')
+        steps += 2
+    return steps, (kind, n, tuple(case['victims']))
+
+
+def scale_cases(tier):
+    kinds = ('plain', 'grid') if tier == 'quick' else ('plain', 'space', 'discrete', 'line', 'grid')
+    for kind in kinds:
+        for n in (5, 40):
+            for victims in ([0], [1, 3], [n // 2, 0, n - 1], [n - 1]):
+                for comp in (None, ('join', 2), ('leave', victims[0])):
+                    yield {'leg': 'population', 'kind': kind, 'n': n, 'victims': victims,
+                           'complete_at': comp}
+
+
 class World:
     pass
 
@@ -436,6 +505,21 @@ class Harness:
 
 
 def run(ctx):
+    for case in scale_cases(ctx.tier):
+        case = dict(case)
+        if case['complete_at'] is not None:
+            case['complete_at'] = tuple(case['complete_at'])
+        ctx.traces += 1
+        ctx.states += 1
+        try:
+            steps, out = hbfs._guard(scale_case, case)
+            ctx.transitions += steps
+            ctx.outcome(out)
+        except Violation as v:
+            ctx.report({k: (list(x) if isinstance(x, tuple) else x) for k, x in case.items()}, v)
+            return
+    ctx.leg('population', note='5 and 40 agents with X / Y / user subclass of PositionComponent; victims leave and '
+                               're-join; model marked complete before a join or a leave')
     if ctx.tier == 'quick':
         small = [('a1', 'a1'), ('a2', 'a2')]
         items = [('plain', True, 4, None), ('plain', False, 30, None), ('space', False, 30, small),
@@ -468,6 +552,12 @@ def run(ctx):
 
 
 def replay(case):
+    if case['leg'] == 'population':
+        c = dict(case)
+        if c.get('complete_at') is not None:
+            c['complete_at'] = tuple(c['complete_at'])
+        hbfs._guard(scale_case, c)
+        return
     cfg = case['config']
     h = Harness(cfg['kind'], cfg['two_models'], cfg['agents'], cfg.get('taint_depth', 2), cfg.get('preattached'),
                 cfg.get('structural', True))
